@@ -6,6 +6,7 @@ from skglm.solvers.base import BaseSolver
 from skglm.utils.anderson import AndersonAcceleration
 from skglm.utils.validation import check_group_compatible, check_attrs
 from skglm.solvers.common import dist_fix_point_bcd
+from skglm import _verif
 
 
 class GroupBCD(BaseSolver):
@@ -86,6 +87,9 @@ class GroupBCD(BaseSolver):
         p_objs_out = np.zeros(self.max_iter)
         stop_crit = 0.  # prevent ref before assign when max_iter == 0
         accelerator = AndersonAcceleration(K=5)
+        if _verif.ON:
+            _verif.emit("init", solver=self, X=X, y=y, datafit=datafit,
+                        penalty=penalty, w=w, Xw=Xw)
 
         for t in range(self.max_iter):
             if is_sparse:
@@ -108,6 +112,8 @@ class GroupBCD(BaseSolver):
                 intercept_opt = 0.
 
             stop_crit = max(np.max(opt), intercept_opt)
+            if _verif.ON:
+                _verif.emit("outer", t=t, stop_crit=stop_crit, w=w, Xw=Xw)
 
             if self.verbose:
                 p_obj = datafit.value(y, w, Xw) + penalty.value(w)
@@ -123,6 +129,8 @@ class GroupBCD(BaseSolver):
             ws_size = max(min(self.p0, n_groups),
                           min(n_groups, 2 * gsupp_size))
             ws = np.argpartition(opt, -ws_size)[-ws_size:]  # k-largest items (no sort)
+            if _verif.ON:
+                _verif.emit("ws", t=t, ws=ws)
 
             for epoch in range(self.max_epochs):
                 # inplace update of w and Xw
@@ -139,6 +147,8 @@ class GroupBCD(BaseSolver):
                     intercept_old = w[-1]
                     w[-1] -= datafit.intercept_update_step(y, Xw)
                     Xw += (w[-1] - intercept_old)
+                if _verif.ON:
+                    _verif.emit("epoch", t=t, epoch=epoch, w=w, Xw=Xw)
 
                 w_acc, Xw_acc, is_extrapolated = accelerator.extrapolate(w, Xw)
 
@@ -149,6 +159,9 @@ class GroupBCD(BaseSolver):
                     if p_obj_acc < p_obj:
                         w[:], Xw[:] = w_acc, Xw_acc
                         p_obj = p_obj_acc
+                if _verif.ON:
+                    _verif.emit("aa", t=t, epoch=epoch, is_extrap=is_extrapolated,
+                                w=w, Xw=Xw, w_acc=w_acc, Xw_acc=Xw_acc)
 
                 # check sub-optimality every 10 epochs
                 if epoch % 10 == 0:
@@ -167,6 +180,9 @@ class GroupBCD(BaseSolver):
                         )
 
                     stop_crit_in = np.max(opt_ws)
+                    if _verif.ON:
+                        _verif.emit("inner", t=t, epoch=epoch,
+                                    stop_crit_in=stop_crit_in)
 
                     if max(self.verbose - 1, 0):
                         p_obj = datafit.value(y, w, Xw) + penalty.value(w)
@@ -179,6 +195,8 @@ class GroupBCD(BaseSolver):
                         break
             p_obj = datafit.value(y, w, Xw) + penalty.value(w)
             p_objs_out[t] = p_obj
+            if _verif.ON:
+                _verif.emit("record", t=t, p_obj=p_obj, w=w, Xw=Xw)
 
         return w, p_objs_out, stop_crit
 
